@@ -246,8 +246,8 @@ func vnames(vs []world.RegVersion) []string {
 	return out
 }
 
-var offered = []string{"0.1.0", "1.0.0", "1.0.1", "1.1.0", "1.2.3", "1.9.9", "1.10.0", "2.0.0-alpha", "2.0.0-beta", "2.0.0-rc1", "2.0.0", "2.1.0-alpha", "3.0.0", "10.0.0", "0.0.1"}
-var constraintPool = []string{"", "", "released", ">= 1.0.0", "~> 1.0", "~> 1.0.0", "~> 1.1", "< 2.0.0", ">= 1.0.0, < 1.5.0", "1.0.0", "= 1.2.3", "!= 3.0.0", ">= 2.0.0-beta", "> 50.0.0",
+var offered = []string{"0.0.0", "0.0.0-beta", "0.1.0", "1.0.0", "1.0.1", "1.1.0", "1.2.3", "1.9.9", "1.10.0", "2.0.0-alpha", "2.0.0-beta", "2.0.0-rc1", "2.0.0", "2.1.0-alpha", "3.0.0", "10.0.0", "0.0.1"}
+var constraintPool = []string{"", "", "released", "0.0.0", "< 0.0.1", "<= 0.0.0", ">= 1.0.0", "~> 1.0", "~> 1.0.0", "~> 1.1", "< 2.0.0", ">= 1.0.0, < 1.5.0", "1.0.0", "= 1.2.3", "!= 3.0.0", ">= 2.0.0-beta", "> 50.0.0",
 	"~> 2.0", "<= 1.2.3", "2.0.0-rc1", "< 1.0.0", ">= 1.1.0, != 1.2.3, < 2.0.0", "> 1.0.0, < 1.0.1", ">= 2.0.0-alpha, < 2.0.0", "~> 0.1", ">= 10.0.0", "< 10.0.0"}
 
 func genWorld(t *rapid.T) world.World {
